@@ -11,6 +11,16 @@ _ODE_NOTE = ("the strict C reader is trusted for the statement shapes it accepts
 _ODE_TECH = ("TLA+ spec OdeGen.tla model-checked with TLC over all small networks; TLC-chosen and random networks rendered by the real "
              "generator for dense/sparse/cusparse/odeint, read back with a strict C reader and validated event by event by Trace_OdeGen.tla")
 CHECKS = {
+    "C12": dict(level="model_checking", design_ref="DESIGN.md §4 C12, §11",
+        technique="TLA+ spec Expr.tla (Fortran expression trees, Translate to the canonical C tree, integer evaluation of both) "
+                  "model-checked with TLC; TLC-chosen and generated trees printed as minimal-parenthesis Fortran, translated by the real "
+                  "KROMEReaction, parsed back and compared with Translate(t) by TLC in Trace_Expr.tla; bundled KROME rates compared "
+                  "numerically with their Fortran value",
+        text="TLC checks EvalC(Translate(t)) = EvalF(t) for all 42k trees of depth <= 2 (and that left-associated ** and a negative "
+             "literal base are caught); for every printed tree the translator's output must be valid C and structurally equal to the "
+             "specification's translation - precedence, right-associativity of **, d/e exponents, intrinsic calls, user variables and "
+             "abundance references - or be rejected; all rate expressions of the bundled KROME files keep their value at 8 temperatures.",
+        note="my own minimal-parenthesis printer; Python's ** as the Fortran oracle for bundled expressions; rejection is allowed"),
     "C16": dict(level="model_checking", design_ref="DESIGN.md §4 C16, §11",
         technique="TLA+ spec Renorm.tla (coefficient tables, Coupling/Additive, integer lemma by Cramer's rule, SetReference/Renorm/perturb "
                   "state machine) model-checked with TLC; emitted tables of both back-ends parsed and compared by TLC; the generated "
